@@ -353,7 +353,8 @@ class Recorder:
         core = r["core"]
         st = core.state
         self._ev = []
-        self._warm = []
+        if not r["resumed"]:
+            self._warm = []   # a resumed run keeps the supported fractions observed so far (any estimator pooled over the history is admissible)
         cfgo = core.config
         self._cfg = {
             "np": int(cfgo.n_particles),
